@@ -158,7 +158,10 @@ def extract():
         raise ExtractError("calc_omen_keyspace: expected exactly one guard `<level - ip_level> >= 0` / `> 0`, found %r" % (ipg,))
     C["keyspace_ip_guard_strict"] = ipg[0] == "<?"
     # `if length < omen_trainer.ngram: continue` -> `if (length <? (Z.of_nat (tt_ngram omen_trainer)))%Z then` + Continue
-    skip = re.findall(r"^\s*if \(\(?\w+\)? (<=\?|<\?) \(Z\.of_nat \(tt_ngram \w+\)\)\)%Z then[^\n]*\n\s*Ok \(Continue ", body, re.M)
+    # (the n-gram size may have been given a local name first)
+    ngram_names = re.findall(r"let (\w+) := Z\.of_nat \(tt_ngram \w+\) in", body)
+    ngram_alt = "|".join([r"\(Z\.of_nat \(tt_ngram \w+\)\)"] + [re.escape(n) for n in ngram_names])
+    skip = re.findall(r"^\s*if \(\(?\w+\)? (<=\?|<\?) (?:%s)\)%%Z then[^\n]*\n\s*Ok \(Continue " % ngram_alt, body, re.M)
     if len(skip) != 1:
         raise ExtractError("calc_omen_keyspace: expected exactly one skip `if length < ngram: continue` / `<=`, found %r" % (skip,))
     C["keyspace_len_skip_le"] = skip[0] == "<=?"
